@@ -29,7 +29,7 @@ func init() {
 		Breaker{Name: "effective-volumes-not-read-back", File: "internal/storage/ledger/moves.go",
 			Old: `Returning("post_commit_volumes, post_commit_effective_volumes").`, New: `Returning("post_commit_volumes").`, Expect: "SQLS/insert-moves-returning"},
 		Breaker{Name: "tx-effective-volumes-first-move-wins", File: "internal/moves.go",
-			Old: "\tslices.Reverse(m)\n", New: "", Expect: "FLOW/compute-pcev"},
+			Old: "\tslices.Reverse(m)\n", New: "\tslices.Reverse(append(Moves{}, m...))\n", Expect: "FLOW/compute-pcev"},
 		Breaker{Name: "pre-existing-ledgers-miss-after-trigger", File: "internal/storage/bucket/migrations/11-make-stateless/up.sql",
 			Old: "\t\t\tvsql = 'create trigger \"update_effective_volumes_' || ledger.id || '\" after insert on moves for each row when (new.ledger = ''' || ledger.name || ''') execute procedure update_effective_volumes()';\n\t\t\texecute vsql;\n", New: "", Expect: "EXH/ledger-objects-siblings"},
 	)
@@ -70,8 +70,11 @@ func checkC04(c *core.Ctx) {
 		ast.Inspect(d.Decl.Body, func(n ast.Node) bool {
 			switch x := n.(type) {
 			case *ast.CallExpr:
-				if f := astx.Callee(info, x); f != nil && f.Pkg() != nil && f.Pkg().Path() == "slices" && f.Name() == "Reverse" && loop == nil {
-					reversed = true
+				if f := astx.Callee(info, x); f != nil && f.Pkg() != nil && f.Pkg().Path() == "slices" && f.Name() == "Reverse" && loop == nil && len(x.Args) == 1 {
+					// the slice reversed is the one iterated afterwards (the receiver)
+					if astx.SelectorPath(x.Args[0]) == d.Decl.Recv.List[0].Names[0].Name {
+						reversed = true
+					}
 				}
 			case *ast.RangeStmt:
 				if loop == nil {
